@@ -54,8 +54,12 @@ func Harness_C16_tunnel_lifecycle() {
 	t := NewTunnel(&TunnelConfig{ID: "t1", MappingID: "m1", Role: TunnelRoleTarget, Protocol: "tcp", LocalConn: local, TunnelRWC: remote,
 		Manager: mgr, OnClosed: func(r CloseReason, err error) { closed++ }})
 	verif_Assert("C16.life.start", t.Start() == nil)
-	if verif_Bool() {
+	switch verif_Choose(3) {
+	case 1:
 		t.Close(CloseReasonPeerClosed, nil)
+	case 2: // the client shuts down: the parent context is cancelled, nobody calls Close
+		cancel()
+		verif_Cover("C16.life.parent_cancelled")
 	}
 	left := verif_Quiesce()
 	verif_Assert("C16.life.onclosed_once", closed == 1)
